@@ -170,7 +170,7 @@ def sym_overrun(inp, part):
         reader.feed_data(data)
         if eof:
             reader.feed_eof()
-        for _ in range(k + 1):
+        for _ in range(k + 2):
             buf = bytes(reader._buffer)
             if not eof and b"\n" not in buf and len(buf) <= 2:
                 break  # would block
@@ -179,9 +179,8 @@ def sym_overrun(inp, part):
                 got.append(("line", s))
             except TransportError as e:
                 got.append(("err", type(e).__name__))
-                if not isinstance(e.__cause__, asyncio.IncompleteReadError):
-                    break  # LimitOverrun leaves the data in the buffer: stuck by design
-                break
+                # keep reading: after an over-long line the data stays in the reader's buffer, so
+                # later reads must fail again (or block) - never return a fragment as a line
             except Exception as e:  # noqa: BLE001
                 raise Violation("foreign-exception:%s" % type(e).__name__, "stream %r limit 2: read raised %s: %s" % (data, type(e).__name__, str(e)[:100]))
 
